@@ -453,6 +453,7 @@ def sem_sx(spec, names) -> str:
 
 
 LAST_FAILURE = None
+LAST_EXCEPTION = None      # side channel: the exception OBJECT that reached the caller of parse()
 
 
 def run_impl(model, text: str, start: str | None, settings: Settings, semantics=None, timeout=5.0):
@@ -481,8 +482,11 @@ def run_impl(model, text: str, start: str | None, settings: Settings, semantics=
         except RecursionError:
             result.append(('recursion', None))
         except ParseException as e:
+            global LAST_EXCEPTION
+            LAST_EXCEPTION = e
             result.append(('exc', type(e).__name__))
         except Exception as e:  # noqa
+            LAST_EXCEPTION = e
             result.append(('exc', type(e).__name__))
 
     # run inline (threads cannot be killed); a watchdog is provided by the caller for hangs
